@@ -68,3 +68,37 @@ Section C01.
     specialize (H (Hin _ _ _)). discriminate.
   Qed.
 End C01.
+
+(* ---- variables that decide what runs ---- *)
+Section ExecVars.
+  Variable simple : ctx -> list str -> verdict.
+  Variable astr : ctx -> str -> verdict.
+  Variable mredir : str -> str -> option verdict.
+  Variable cdres : str -> str -> str.
+  Variable injrisk : ctx -> list str -> bool.
+  Variable rulematch : ctx -> list str -> bool.
+  Notation walk := (walk simple astr mredir cdres injrisk rulematch).
+
+  Lemma env_asks_ok nassign words : forall pos, ok (env_asks nassign pos words) ->
+    forall i w, nth_error words i = Some w -> (pos + i < nassign)%nat -> sets_execution_var w = false.
+  Proof.
+    induction words as [|x words IH]; intros pos H i w Hi Hlt; [destruct i; discriminate|].
+    cbn [env_asks] in H. apply ok_app in H as [H1 H2]. destruct i as [|i].
+    - cbn in Hi. injection Hi as <-. assert (Hlt' : (pos < nassign)%nat) by lia. apply PeanoNat.Nat.ltb_lt in Hlt'. rename Hlt' into Hl0. clear Hlt. rename Hl0 into Hlt. rewrite Hlt in H1. cbn [andb] in H1.
+      destruct (sets_execution_var x); [|reflexivity]. apply ok_cons in H1 as [H1 _]. discriminate.
+    - cbn in Hi. apply (IH (S pos) H2 i w Hi). lia.
+  Qed.
+
+  (* an approved simple command has no word in its assignment prefix that sets a variable deciding what runs
+     (PATH, LD_PRELOAD, BASH_ENV, IFS, PAGER, ... - except a PATH assigned system directories only) *)
+  Lemma approved_sets_no_execution_var c ss fs ks : let t := T $"command" ss fs ks in
+    walk c t = Allow ->
+    forall i w, nth_error (cmd_words t) i = Some w ->
+      (i < length (cmd_words t) - length (skip_assignments (cmd_words t)))%nat -> sets_execution_var w = false.
+  Proof.
+    intros t H i w Hi Hlt. subst t. rewrite walk_command in H. apply combine_allow in H.
+    assert (Hok : ok (cmd_env (T $"command" ss fs ks))).
+    { unfold ok. rewrite Forall_forall in *. intros v Hv. apply H. apply in_or_app. right. apply in_or_app. left. exact Hv. }
+    unfold cmd_env in Hok. exact (env_asks_ok _ _ 0 Hok i w Hi Hlt).
+  Qed.
+End ExecVars.
